@@ -648,7 +648,7 @@ fn c18_multi(stats: &mut Stats) -> Vec<Failure> {
             "Standard" => stdout.lines().filter(|l| l.starts_with("Diff in ")).count(),
             "Unified" => stdout.lines().filter(|l| l.starts_with("--- ")).count(),
             "Json" => stdout.lines().filter(|l| serde_json::from_str::<serde_json::Value>(l).map(|v| v.get("mismatches").is_some()).unwrap_or(false)).count(),
-            _ => stdout.lines().filter(|l| l.trim_end().ends_with(".lua") || l.trim() == "tool").count(),
+            _ => stdout.lines().filter(|l| l.trim_end().ends_with(".lua") || l.trim() == "tool" || l.trim_end().ends_with("/tool")).count(),
         };
         // the summary names exactly the differing files, as the arguments spell them
         if fmt == "Summary" && s.run.argv.len() == 7 && !s.run.argv[5].starts_with('-') && s.run.argv[5] != "." && s.run.argv[6] != "src" {
